@@ -4,8 +4,14 @@ import OpcuaModel.Model.NodeId
 import OpcuaModel.Model.Graph
 import OpcuaModel.Model.Order
 import OpcuaModel.Model.JsonIO
+import OpcuaModel.Model.Parse
+import OpcuaModel.Lemmas.MapE
 import OpcuaModel.Lemmas.Str
 import OpcuaModel.Lemmas.Order
+import OpcuaModel.Props.C01
+import OpcuaModel.Props.C02
+import OpcuaModel.Props.C03
+import OpcuaModel.Props.C04
 import OpcuaModel.Props.C09
 import OpcuaModel.Props.C12
 import OpcuaModel.Props.C13
